@@ -435,6 +435,74 @@ func SmallPrograms() []diffrun.Program {
 	return c
 }
 `, "\tprintln(\"C04/addrclosure\", itoa(int64(AddrInClosure(Int(1), Int(2)))), AddrInClosure(\"a\", \"b\"), ftoa(AddrInClosure(1.5, 2.5)))\n"),
+		mk("addrlocal", `type Num interface{ ~int | ~int32 | ~int64 | ~uint8 }
+
+func bump[T Num](p *T) { *p += 5 }
+
+// the address of a local is taken several times; the temporaries differ between instantiations
+func AddrLocal[T Num](v T, n T) T {
+	x := n
+	bump(&x)
+	y := x * 2 / 3
+	z := y + 1
+	bump(&x)
+	bump(&z)
+	p, q := &x, &x
+	if p != q {
+		return 0
+	}
+	w := v % 7
+	bump(&w)
+	bump(&y)
+	return x + y + z + w
+}
+
+func AddrLocalF[T ~float64 | ~float32](n T) T {
+	x := n
+	bump2(&x)
+	y := x * 2
+	bump2(&x)
+	bump2(&y)
+	return x + y
+}
+
+func bump2[T ~float64 | ~float32](p *T) { *p += 0.5 }
+`, "\tprintln(\"C04/addrlocal\", itoa(int64(AddrLocal(Int(1), Int(1)))), itoa(int64(AddrLocal(int64(2), int64(1<<40)))), itoa(int64(AddrLocal(uint8(3), uint8(250)))), itoa(int64(AddrLocal(int32(4), int32(-9)))), ftoa(AddrLocalF(1.5)), ftoa(float64(AddrLocalF(float32(2.5)))))\n"),
+		mk("chandir", `func Ends[T any](c chan T) (interface{}, interface{}, interface{}) {
+	var r <-chan T = c
+	var s chan<- T = c
+	return r, s, c
+}
+
+func kind(x interface{}) string {
+	switch x.(type) {
+	case <-chan Int:
+		return "<-chan Int"
+	case chan<- Int:
+		return "chan<- Int"
+	case chan Int:
+		return "chan Int"
+	case <-chan string:
+		return "<-chan string"
+	case chan<- string:
+		return "chan<- string"
+	case chan string:
+		return "chan string"
+	}
+	return "other"
+}
+
+type Pipe[T any] struct {
+	In  chan<- T
+	Out <-chan T
+}
+
+func NewPipe[T any]() Pipe[T] { c := make(chan T, 1); return Pipe[T]{c, c} }
+
+func Funcs[T any]() (interface{}, interface{}) {
+	return func(<-chan T) {}, func(chan<- T) {}
+}
+`, "\ta, b, c := Ends(make(chan Int))\n\td, e, f := Ends(make(chan string))\n\tp := NewPipe[Int]()\n\tp.In <- 7\n\tvar pi, po interface{} = p.In, p.Out\n\tf1, f2 := Funcs[Int]()\n\t_, ok1 := f1.(func(<-chan Int))\n\t_, ok2 := f2.(func(chan<- Int))\n\t_, ok3 := f1.(func(chan Int))\n\tprintln(\"C04/chandir\", kind(a), kind(b), kind(c), kind(d), kind(e), kind(f), kind(pi), kind(po), itoa(int64(<-p.Out)), btoa(a == b), btoa(ok1), btoa(ok2), btoa(ok3))\n"),
 		mk("rangechan", `func RangeChan[C ~chan E, E any](c C) (n int) {
 	for range c {
 		n++
